@@ -102,33 +102,34 @@ type Call struct {
 }
 
 type OpResult struct {
-	Op          string   `json:"op"`
-	Skipped     bool     `json:"skipped,omitempty"`
-	Err         string   `json:"err,omitempty"`      // "" nil | "flags.Error" | "flags.IniError" | Go type
-	ErrType     string   `json:"err_type,omitempty"` // flags.ErrorType name
-	Msg         BStr     `json:"msg,omitempty"`
-	Line        uint     `json:"line,omitempty"`
-	ErrFile     string   `json:"err_file,omitempty"`
-	Injected    int      `json:"injected,omitempty"` // id when the returned error IS an injected error value
-	Rest        []BStr   `json:"rest,omitempty"`
-	Out         BStr     `json:"out,omitempty"`
-	OutCalls    int      `json:"out_calls,omitempty"`
-	Panic       string   `json:"panic,omitempty"`
-	Exit        bool     `json:"exit,omitempty"`
-	ExitCode    int      `json:"exit_code,omitempty"`
-	Budget      bool     `json:"budget,omitempty"`
-	Hang        string   `json:"hang,omitempty"`
-	Crash       bool     `json:"crash,omitempty"`
-	Fd1         BStr     `json:"fd1,omitempty"`
-	Fd2         BStr     `json:"fd2,omitempty"`
-	Calls       []Call   `json:"calls,omitempty"`
-	Ticks       int64    `json:"ticks,omitempty"`
-	Values      []string `json:"values,omitempty"`
-	Active      string   `json:"active,omitempty"`
-	ReaderErr   string   `json:"reader_err,omitempty"` // injected read error that fired
-	ZeroReads   int      `json:"zero_reads,omitempty"`
-	ReadCalls   int      `json:"read_calls,omitempty"`
-	FaultsFired int      `json:"faults_fired,omitempty"`
+	Op           string   `json:"op"`
+	Skipped      bool     `json:"skipped,omitempty"`
+	Err          string   `json:"err,omitempty"`      // "" nil | "flags.Error" | "flags.IniError" | Go type
+	ErrType      string   `json:"err_type,omitempty"` // flags.ErrorType name
+	Msg          BStr     `json:"msg,omitempty"`
+	Line         uint     `json:"line,omitempty"`
+	ErrFile      string   `json:"err_file,omitempty"`
+	Injected     int      `json:"injected,omitempty"` // id when the returned error IS an injected error value
+	Rest         []BStr   `json:"rest,omitempty"`
+	Out          BStr     `json:"out,omitempty"`
+	OutCalls     int      `json:"out_calls,omitempty"`
+	Panic        string   `json:"panic,omitempty"`
+	Exit         bool     `json:"exit,omitempty"`
+	ExitCode     int      `json:"exit_code,omitempty"`
+	Budget       bool     `json:"budget,omitempty"`
+	Hang         string   `json:"hang,omitempty"`
+	Inconclusive bool     `json:"inconclusive,omitempty"`
+	Crash        bool     `json:"crash,omitempty"`
+	Fd1          BStr     `json:"fd1,omitempty"`
+	Fd2          BStr     `json:"fd2,omitempty"`
+	Calls        []Call   `json:"calls,omitempty"`
+	Ticks        int64    `json:"ticks,omitempty"`
+	Values       []string `json:"values,omitempty"`
+	Active       string   `json:"active,omitempty"`
+	ReaderErr    string   `json:"reader_err,omitempty"` // injected read error that fired
+	ZeroReads    int      `json:"zero_reads,omitempty"`
+	ReadCalls    int      `json:"read_calls,omitempty"`
+	FaultsFired  int      `json:"faults_fired,omitempty"`
 }
 
 type Outcome struct {
@@ -170,6 +171,10 @@ type RunCtx struct {
 var cur *RunCtx
 
 var maxTicks = map[string]int64{}
+
+// inconclusiveOps counts operations cut off by the wall-clock backstop without
+// evidence of a stuck loop; a verdict that involved one is discarded.
+var inconclusiveOps int
 
 // opsExecuted counts operations actually run by Execute (evidence).
 var opsExecuted int
@@ -378,6 +383,11 @@ func Execute(sc *Scenario, sched *simrt.Schedule) (out *Outcome) {
 		w.Fd1.Data, w.Fd2.Data = nil, nil
 		w.Ticks = 0
 		ctx.bytesSeen += opBytes(op)
+		if op.Kind == "iniread" && op.File != "" {
+			if node := w.Disk.Nodes[op.File]; node != nil {
+				ctx.bytesSeen += int64(len(node.Data)) // input that arrives through the simulated disk
+			}
+		}
 		w.TickBudget = opBudget(op, ctx.bytesSeen)
 		w.WallDeadline = time.Now().Add(8 * time.Second).UnixNano()
 		if op.Kind == "iniread" && op.SrcBack > 0 && len(out.Ops) >= op.SrcBack {
@@ -475,7 +485,17 @@ func runOp(w *simrt.World, b *Built, op *Op, res *OpResult) {
 				res.Exit = true
 				res.ExitCode = p.Code
 			case simrt.BudgetPanic:
-				res.Budget = true
+				// The step budget is the criterion. The wall-clock backstop only counts
+				// as a hang when the operation had by then also executed more steps than
+				// any legitimate operation on that much input does (twice the measured
+				// maxima); otherwise the operation was merely slow: inconclusive.
+				if p.Wall && p.Ticks <= 40_000+40*cur.bytesSeen {
+					res.Inconclusive = true
+					inconclusiveOps++
+					w.Stat("inconclusive.wall-clock")
+				} else {
+					res.Budget = true
+				}
 			case simrt.HangPanic:
 				res.Budget = true
 				res.Hang = p.Why
